@@ -10,7 +10,7 @@ from . import progs as P
 #      around each of {break, continue, return, throw, fatal}, followed by further code
 # =============================================================================================
 CTX = ["loop", "while", "for", "block", "if", "arm", "dflt", "try", "catch", "call"]
-EXITS = ["break", "continue", "return", "throw", "fatal", "none"]
+EXITS = ["break", "continue", "return", "throw", "fatal", "none", "retthrow", "exprthrow"]
 LOOPS = ("loop", "while", "for")
 
 
@@ -47,6 +47,14 @@ class NestGen:
             return [Expr(Call("throw", S("boom")))]
         if exit_ == "fatal":
             return [Print(Bin("/", I(1), V("zero")))]
+        if exit_ == "retthrow":
+            # the exception is raised while the operand of `return` is evaluated: the handlers around it are still in force
+            self.need_boom = True
+            return [Ret(Call("boom")) if in_fn else Ret(Call("boomn"))]
+        if exit_ == "exprthrow":
+            # ... or in the middle of an expression with an operand already evaluated
+            self.need_boom = True
+            return [Let("half", Bin("+", V("one"), Call("boom"))), Print(S("half"), V("half"))]
         return []
 
     def wrap(self, ctxs, exit_, depth, in_fn):
@@ -105,9 +113,12 @@ class NestGen:
             # a handler left installed by the nest would wrongly catch this one
             body += [Expr(Call("throw", S("final")))]
         fns = dict(self.fns)
+        if getattr(self, "need_boom", False):
+            fns["boom"] = Fn([], Block([Expr(Call("throw", S("boom")))], I(0)), ret="int")
+            fns["boomn"] = Fn([], Block([Expr(Call("throw", S("boom")))]))
         fns["main"] = Fn([], Block(body))
         feats = {"family": "nest", "ctxs": "/".join(ctxs), "exit": exit_, "depth": len(ctxs),
-                 "throw_depth": sum(1 for c in ctxs[_first_try(ctxs):] if c == "call") if exit_ == "throw" else -1,
+                 "throw_depth": sum(1 for c in ctxs[_first_try(ctxs):] if c == "call") if exit_ in ("throw", "retthrow", "exprthrow") else -1,
                  "exit_inside_try": _inside(ctxs, "try"), "exit_inside_catch": _inside(ctxs, "catch"),
                  "has_call": "call" in ctxs, "has_dflt": "dflt" in ctxs, "ending": ending}
         return Program(self.pid, fns, globs=[("zero", I(0)), ("one", I(1)), ("yes", B(True))], feats=feats)
